@@ -257,6 +257,10 @@ func (u *Upstream) WriteDataPoints(ctx context.Context, dataID *message.DataID, 
 	if u.state.Is(streamStatusDraining) {
 		return errors.New("draining")
 	}
+	if len(dps) == 0 {
+		// nothing to buffer; an entry without data points would later be cut into an empty chunk
+		return nil
+	}
 
 	select {
 	case <-u.ctx.Done():
